@@ -18,6 +18,18 @@ CHECKS = {
     "C03": ("exploration", "oracle-free bounded exhaustive comparison of the implementation with itself under each symmetry over complete product lattices and all float32 inputs",
             "Bit-pattern comparison of f(z) with f(conj z), f(-z), f(iz) and of derived functions with their parents on the full product S x S of a negation-closed component lattice (all binades, thresholds +-2 ULP, special values, infinities) for 14 functions x 2 precisions, and on all float32 inputs (thorough) for the real functions. No tolerance: a single differing bit outside the literally excluded branch-cut/zero cases decides.",
             "Trusts the interpreter's bit-identity with the emitted NumPy code (measured by C01's conformance replay). Inputs off the lattice are not covered.", "DESIGN.md §2 C03"),
+    "C04": ("exploration", "bounded exhaustive program enumeration (all expression trees up to a size bound over the supported kinds and a leaf alphabet) with differential evaluation of original vs rewritten DAG on a complete assignment grid, float and exact rational",
+            "Every well-typed tree of the listed sizes (all kinds to size 2, boolean/select algebra to size 3, sign-inference comparison pairs, constant-only trees, casts/atan2/copysign/hypot nestings) is built in a fresh Context, rewritten, and both DAGs are evaluated by an independent interpreter on the full 18x18 grid of special and generic values (compared where the original raises no NaN/overflow/underflow/divide-by-zero event) and exactly on a 9x9 rational grid; raises and non-termination are violations; shipped algorithms before/after fa.rewrite on lattices. Mismatches are reduced to their minimal failing sub-tree.",
+            "Trusts mc.interp = NumPy semantics. Programs beyond the size bounds are not covered.", "DESIGN.md §2 C04"),
+    "C07": ("model_checking", "explicit-state BFS over construction histories of one Context, each state rebuilt on the real code, `is` vs structural-term equality in every state",
+            "Level-synchronous breadth-first search over sequences of symbol/constant/operation constructions (two families enumerated completely up to 4-5 distinct terms), canonical states = set of structural terms + first-registered member of every ==-equal constant class (the only order-sensitive behaviour), so both orders of every colliding pair are visited; after every event the new node is compared with every earlier node: same object iff same structural term (value bits incl. sign of zero, type, like).",
+            "Like-expressions are symbols; named constants under the documented spelling normalisation. Histories beyond the term bound are not covered.", "DESIGN.md §2 C07"),
+    "C08": ("exploration", "complete kind-pair program lattice x all 25 dtype assignments, emitted NumPy code executed with debug=1",
+            "Every kind the NumPy target declares (size 1), every constant class in every operand position, select/logical plumbing and the full outer x inner x position lattice are traced under every assignment of float16/32/64/complex64/128 to the symbols, emitted with debug=1 and executed on special and generic values in both orders; an emitted dtype assertion that fires, or a result dtype different from the declared one, is a violation. Shipped NumPy requests likewise.",
+            "Graphs the printer refuses or NumPy cannot execute are outside the claim. Programs deeper than the lattice are not covered.", "DESIGN.md §2 C08"),
+    "C09": ("model_checking", "explicit-state exploration of request histories: all ordered pairs (and triples on a subset) from a pristine forked zygote, Eulerian-circuit walks, hash-seed sweep, against a pristine per-request table",
+            "The text of every (target, function, signature) request generated alone in a pristine process is the reference; every ordered pair of requests (quick: over a 60-request subset covering every (target, function); thorough: all 172^2) is run in its own child forked from an import-only zygote, long walks cover an Eulerian circuit of the complete request digraph, and the whole catalogue is regenerated under several PYTHONHASHSEED values in both orders. Every history is executed on the real generator.",
+            "Depth-2 complete, depth 3 on a subset, one circuit of long walks, a finite seed set. Requests raising NotImplementedError count as deterministic text.", "DESIGN.md §2 C09"),
     "C10": ("exploration", "exhaustive enumeration of all float16 operand pairs (thorough) / all pairs of a 4096-value sub-alphabet (quick) per variant, exact comparison in a wider exact arithmetic",
             "All 4.03e9 ordered float16 pairs per 2Sum/Fast2Sum/Dekker variant (fpa, apmath, utils and the copies inlined in algorithms.py) and all finite float16 through every splitter are checked for s=RN(x+y), s+t=x+y, h=RN(xy), h+l=xy, xh+xl=x and half widths, in float64 where sums/products of float16/32 operands are exact; float32/64 on a delta-exponent product lattice.",
             "Trusts float64 exactness of float16/float32 sums and products within the stated exponent spans (asserted), NumPy casts as RN-even. float32/float64 are covered on the structured lattice only.", "DESIGN.md §2 C10"),
@@ -49,6 +61,9 @@ CHECKS = {
     "C17": ("exploration", "exhaustive enumeration of every in-domain float16, complete ULP neighbourhoods of k*ln2 / k*pi/2 and continued-fraction hard cases for float32/64, multiprecision reconstruction",
             "Every finite float16 of the stated domains, and for float32/64 the binade lattice, the complete neighbourhoods of every k*ln2 and of k*pi/2 (k<256/1024) and the per-binade mantissas closest to multiples of pi/2 and ln2 are reduced by the real code; k, |r| and the reconstruction error are judged against ln2/pi carried as Fractions at >10x precision.",
             "Trusts mpmath's ln2 and pi and Fractions. float32/float64 off the constructed set are not covered.", "DESIGN.md §2 C17"),
+    "C18": ("model_checking", "explicit-state BFS over create/enter/exit/raise histories on the real MXCSR register with an integer register + stack reference model, plus generated with/decorator programs",
+            "Breadth-first search over histories (nesting depth <= 3, <= 2-3 context objects, <= 1 exception) from 9-18 initial register states and 12-45 argument combinations; every transition replays the whole history on fresh fpu objects, reads the hardware register through the harness's own stmxcsr stub after every event and compares the control bits with the model; arithmetic probes confirm the body observes the mode; every failing history is replayed twice; complete nestings also run as generated source with real with-statements, try/except and the decorator form.",
+            "Single thread; exception masks are never unmasked; sticky status bits are excluded from comparisons.", "DESIGN.md §2 C18"),
     "C19": ("exploration", "complete product of size x bounds x flags x dtype configurations with structural predicates on the returned arrays",
             "real_samples is called on the full product of 22+ sizes (incl. N_repr-1..N_repr+1) x 15^2 (min,max) bound pairs x flag sets x 3 dtypes; ordering, bounds, presence of requested special values, absence of subnormals/NaN, and ULP-uniformity are judged with ordinal arithmetic; the pair/triple/complex generators are compared with Cartesian products of the 1-D calls.",
             "Sizes below the documented minimum 6 and min>max are outside the domain; with unique=False only multiset properties are judged.", "DESIGN.md §2 C19"),
